@@ -531,7 +531,7 @@ func init() {
 	core.Register(&core.Check{
 		ID:    "C02",
 		Level: "model_checking",
-		Rule: "case = (frame, index shape, clause tree). Tier A: every leaf of the ~600-leaf alphabet (all comparators x argument kinds x Inverse, per column type) alone and in 7 wrappers on 4 frames x 5 shapes; " +
+		Rule: "case = (frame, index shape, clause tree). Tier A: every leaf of the ~600-leaf alphabet (all comparators x argument kinds x Inverse, per column type) alone and in 7 wrappers on 4 frames x 7 shapes; " +
 			"A2: every ordered pair of leaves under And/Or/Or(Not); B: every And/Or/Not tree with <=K leaf slots and bounded depth, every assignment of core leaves to the slots. " +
 			"Non-trivial = the clause keeps some but not all rows according to the model; distinct by (frame, clause text).",
 		Assumptions: []string{
